@@ -591,6 +591,17 @@ class Interp(object):
             raise _Break()
         if isinstance(st, ast.Continue):
             raise _Continue()
+        if isinstance(st, ast.Assign) and len(st.targets) > 1:
+            # a = b = V : V is computed once and bound to a, then b takes the same object
+            first = ast.copy_location(ast.Assign(targets=[st.targets[0]], value=st.value), st)
+            self.stmt(first, state, trace)
+            src_t = normal.clone(st.targets[0])
+            for x in ast.walk(src_t):
+                if hasattr(x, 'ctx'):
+                    x.ctx = ast.Load()
+            for t in st.targets[1:]:
+                self.stmt(ast.copy_location(ast.Assign(targets=[t], value=normal.clone(src_t)), st), state, trace)
+            return
         if isinstance(st, ast.Assign) and len(st.targets) == 1 and isinstance(st.targets[0], ast.Name):
             if isinstance(st.value, ast.Name) and st.value.id == st.targets[0].id:
                 return
